@@ -83,6 +83,8 @@ type Op struct {
 	Filter bool   `json:"filter"`
 	Count  int    `json:"count"`
 	Cancel bool   `json:"cancel"`
+	What    string `json:"what"`    // fail: "" = commit, "val" / "dig" = the Set of key K's value / digest
+	CtrFail bool   `json:"ctrfail"` // write/del: the flush of the version counter fails at the leaseholder
 	Batch  []Item `json:"batch"`
 }
 
@@ -173,6 +175,30 @@ type faultyEngine struct {
 	// onCommit, when set, is called once right after the next successful commit of a transaction
 	// that wrote a user key (used to cancel the writing call's own context at that very moment)
 	onCommit atomic.Pointer[func()]
+	// failKey: the next write (Set/Delete) of exactly this key inside a transaction fails once
+	failKey atomic.Pointer[[]byte]
+	// failCtr: the next direct Set of the version-counter key fails once
+	failCtr  atomic.Bool
+	ctrFired atomic.Int64
+}
+
+const counterKey = "ver"
+
+func (e *faultyEngine) Set(ctx context.Context, key, value []byte, opts ...any) error {
+	if string(key) == counterKey && e.failCtr.CompareAndSwap(true, false) {
+		e.ctrFired.Add(1)
+		e.fired.Add(1)
+		return errors.New("verif: injected counter flush failure")
+	}
+	return e.DB.Set(ctx, key, value, opts...)
+}
+
+func (t *faultyTx) keyFault(key []byte) error {
+	if fk := t.eng.failKey.Load(); fk != nil && bytes.Equal(*fk, key) && t.eng.failKey.CompareAndSwap(fk, nil) {
+		t.eng.fired.Add(1)
+		return errors.New("verif: injected write failure")
+	}
+	return nil
 }
 
 func (e *faultyEngine) OpenTx() xkv.Tx { return &faultyTx{Tx: e.DB.OpenTx(), eng: e} }
@@ -191,12 +217,18 @@ func (t *faultyTx) Set(ctx context.Context, key, value []byte, opts ...any) erro
 	if userKey(key) {
 		t.touched = true
 	}
+	if err := t.keyFault(key); err != nil {
+		return err
+	}
 	return t.Tx.Set(ctx, key, value, opts...)
 }
 
 func (t *faultyTx) Delete(ctx context.Context, key []byte, opts ...any) error {
 	if userKey(key) {
 		t.touched = true
+	}
+	if err := t.keyFault(key); err != nil {
+		return err
 	}
 	return t.Tx.Delete(ctx, key, opts...)
 }
@@ -621,6 +653,9 @@ func (c *Cluster) Step(o Op) (rc int) {
 		if n == nil {
 			return 0
 		}
+		if o.CtrFail {
+			return c.writeCtrFail(n, o)
+		}
 		var err error
 		// "cancel": the call runs under its own context, which the caller cancels as soon as the
 		// call has returned (ctx, cancel := ...; Set(ctx, ...); cancel()). It must not matter.
@@ -797,6 +832,85 @@ func (c *Cluster) Step(o Op) (rc int) {
 		c.barrierAll()
 	}
 	return 0
+}
+
+// writeCtrFail: DB.Set/Delete while the leaseholder's engine refuses the Set of the version-counter
+// key. Return codes as for a write, plus 3 = the call did not return (versionAssigner dropped the
+// request). The node whose counter flush failed is then reopened (kv.Open on the same engine).
+func (c *Cluster) writeCtrFail(n *Node, o Op) int {
+	for _, k := range c.keys {
+		c.nodes[k].faulty.failCtr.Store(true)
+	}
+	before := map[uint32]int64{}
+	for _, k := range c.keys {
+		before[k] = c.nodes[k].faulty.ctrFired.Load()
+	}
+	done := make(chan error, 1)
+	go func() {
+		if o.Op == "write" {
+			if o.Lease != 0 {
+				done <- n.db.Set(c.ctx, KeyBytes(o.K), valBytes(o.V), node.Key(o.Lease))
+			} else {
+				done <- n.db.Set(c.ctx, KeyBytes(o.K), valBytes(o.V))
+			}
+		} else {
+			done <- n.db.Delete(c.ctx, KeyBytes(o.K))
+		}
+	}()
+	var err error
+	returned := false
+	var firedOn *Node
+	deadline := time.Now().Add(waitCap)
+	for !returned && firedOn == nil {
+		select {
+		case err = <-done:
+			returned = true
+		case <-time.After(50 * time.Microsecond):
+			for _, k := range c.keys {
+				if c.nodes[k].faulty.ctrFired.Load() > before[k] {
+					firedOn = c.nodes[k]
+				}
+			}
+			if time.Now().After(deadline) {
+				panic(hang{"write under a counter-flush fault neither returned nor hit the fault"})
+			}
+		}
+	}
+	for _, k := range c.keys {
+		c.nodes[k].faulty.failCtr.Store(false)
+	}
+	rc := 0
+	if firedOn != nil && !returned {
+		// HEAD drops the request inside versionAssigner: the call never returns. No marker can be sent
+		// behind it (any request through versionAssigner would flush the advanced in-memory counter),
+		// so the call gets a grace period to return unexpectedly; the node is then reopened, after
+		// which a call that has not returned never will.
+		select {
+		case err = <-done:
+			returned = true
+		case <-time.After(300 * time.Millisecond):
+			rc = 3
+		}
+	}
+	if returned {
+		if err != nil {
+			rc = 2
+			if errors.Is(err, kv.ErrLeaseNotTransferable) {
+				rc = 1
+			}
+		}
+	}
+	if firedOn != nil {
+		c.abortRecoveries(firedOn)
+		firedOn.releaseStalled()
+		if e := firedOn.db.Close(); e != nil && !errors.Is(e, context.Canceled) {
+			panic(fmt.Sprintf("close: %v", e))
+		}
+		firedOn.subs = map[int]*sub{}
+		c.open(firedOn)
+	}
+	c.barrierAll()
+	return rc
 }
 
 func (c *Cluster) recBegin(nk, pk uint32) {
@@ -1015,7 +1129,16 @@ func RunCase(cs Case, withSubs bool) (res Result) {
 			if n := c.nodes[o.N]; n != nil && i+1 < len(cs.Ops) {
 				switch cs.Ops[i+1].Op {
 				case "inject", "deliver", "round":
-					n.faulty.armed.Store(true)
+					switch o.What {
+					case "val":
+						kb := KeyBytes(o.K)
+						n.faulty.failKey.Store(&kb)
+					case "dig":
+						kb := append([]byte("--dig/"), KeyBytes(o.K)...)
+						n.faulty.failKey.Store(&kb)
+					default:
+						n.faulty.armed.Store(true)
+					}
 				}
 			}
 		}
@@ -1023,6 +1146,7 @@ func RunCase(cs Case, withSubs bool) (res Result) {
 		if o.Op != "fail" {
 			for _, k := range c.keys {
 				c.nodes[k].faulty.armed.Store(false)
+				c.nodes[k].faulty.failKey.Store(nil)
 			}
 		}
 		d := c.Dump(withSubs)
